@@ -12,11 +12,12 @@ sys.path.insert(0, str(VERIF))
 def main():
     props = [json.loads(l) for l in (VERIF / "properties.jsonl").read_text().splitlines() if l.strip()]
     checks, na = [], []
+    ready = set((VERIF / "vp" / "ready.txt").read_text().split())
     for p in props:
         pid = p["id"]
         modf = VERIF / "vp" / "props" / f"{pid.lower()}.py"
         propv = VERIF / "coq" / "theories" / "Props" / f"{pid}.v"
-        if modf.exists() and propv.exists():
+        if modf.exists() and propv.exists() and pid in ready:
             mod = importlib.import_module(f"vp.props.{pid.lower()}")
             m = getattr(mod, "META", None)
             if m and not m.get("disabled"):
